@@ -95,6 +95,9 @@ def spec_call(E, name, node, st, fr):
     if name == "keys":
         v = E.ev(A[0], st, fr)
         return V(ty.SeqV(v.t.args[0]), E.dict_keys(st, v))
+    if name == "vals_set":
+        v = E.ev(A[0], st, fr)
+        return V(T("arr", (v.t.args[0], BOOL)), E.set_arr(st, v))
     if name == "vals":
         v = E.ev(A[0], st, fr)
         return V(T("arr", (v.t.args[0], v.t.args[1])), E.dict_vals(st, v))
@@ -652,13 +655,17 @@ def apply_contract(E, c: FnContract, q, argmap, st, fr, node):
     ms = E.modset(c, view(pre, dict(argmap)), cfr)
     E.havoc_modset(st, ms, pre, allocates=c.allocates)
     # ---- exceptional outcomes ----------------------------------------------------------------
+    sel = fresh("raised", z3.BoolSort()) if c.raises else None
     for exc, posts in c.raises.items():
         es = st.copy()
+        es.assume(sel, True)
         for p in posts:
             es.assume(E.sev_bool(p, view(es, dict(argmap)), cfr))
         es.locals = dict(st.locals)
         fr.exc.append(Outcome("raise", es, None, exc, f"{short(q)}#{site}"))
     # ---- normal outcome ------------------------------------------------------------------------
+    if sel is not None:
+        st.assume(z3.Not(sel), True)
     res = None
     binds = {}
     if c.returns is not None and c.returns.kind != "none":
